@@ -45,10 +45,10 @@ STYLES = {
 KINDS = {"del": DelegatesTo, "proto": PrototypedFrom}
 
 
-def build_hop1(kind, style, class_prefix="d_", default_delegate=False):
+def build_hop1(kind, style, class_prefix="d_", default_delegate=None):
     name, prefix, tf = STYLES[style]
-    # (default_delegate: the delegate is never assigned - it is the trait's own default object)
-    ns = {"__prefix__": class_prefix, "d": Instance(D, ()) if default_delegate else Instance(HasTraits),
+    # (default_delegate: the delegate is never assigned - it is the trait's own, constant, default object)
+    ns = {"__prefix__": class_prefix, "d": Instance(D, default_delegate) if default_delegate is not None else Instance(HasTraits),
           name: KINDS[kind]("d", prefix=prefix)}
     if kind == "proto":
         # a SECOND deferring attribute, declared later, for the same delegate and the same target
@@ -111,11 +111,10 @@ def run(case, ctx):
         dq = Decoy(d=D())
         dq.on_trait_change(lambda: None, dname)
         setattr(dq.d, dtarget, 9)
-    Q, name1, target = build_hop1(kind1, style1, case.get("class_prefix", "d_"), bool(case.get("default_delegate")))
     ds = [D(), D(), D()]
+    Q, name1, target = build_hop1(kind1, style1, case.get("class_prefix", "d_"), ds[0] if case.get("default_delegate") else None)
     if case.get("default_delegate"):
-        qs = [Q(), Q(d=ds[1])]
-        ds[0] = qs[0].d                 # the first delegate IS the default object of the trait (materialised by this read)
+        qs = [Q(), Q(d=ds[1])]           # the first object's delegate IS the default object of the trait, never assigned
         ctx.label("default-delegate")
     else:
         qs = [Q(d=ds[0]), Q(d=ds[1])]
